@@ -211,12 +211,19 @@ def c04(tier):
     inv = ["Readable", "PastRootsReadable"]
     pr = ["AppendOnly", "FailedWriteKeepsRoot"]
     base = dict(prune="OnlyNoPrune", features="FHistCk", invariants=inv, properties=pr)
-    return generic("C04", tier,
-                   [dict(base, level=4, view="ViewFull")],
-                   [dict(base, level=5, view="ViewFull"),
-                    dict(base, level=4, view="ViewLight", invariants=["Readable"], vals="VFull")],
-                   opts=("past",), modes=("second", "batch"), ntr=(80, 1000), prune=False,
-                   sim=dict(base, features="FHistCkNoop", view="ViewFull", maxlive=4))
+    rep = generic("C04", tier,
+                  [dict(base, level=4, view="ViewFull")],
+                  [dict(base, level=5, view="ViewFull"),
+                   dict(base, level=4, view="ViewLight", invariants=["Readable"], vals="VFull")],
+                  opts=("past",), modes=("second", "batch"), ntr=(80, 1000), prune=False,
+                  sim=dict(base, features="FHistCkNoop", view="ViewFull", maxlive=4), finish=False)
+    # vacuity: going back to a past root (Checkout) and a second handle must have been exercised both ways
+    for a in ("checkout", "adopt"):
+        if not rep.cov.get("replayed_last_action_counts", {}).get(a):
+            rep.vacuity.append(f"no replayed behaviour ended in '{a}'")
+        if not rep.cov.get("trace_event_counts", {}).get(a):
+            rep.vacuity.append(f"no validated trace contained '{a}'")
+    return rep.finish()
 
 
 def c05(tier):
